@@ -312,7 +312,7 @@ class EngineCampaign:
                       {"expected": SKELETON_SHA, "actual": sha})
 
     def one(self, nodes, edges, workers, max_errors, scheduler, failing, exc_kind, chooser, tag, interrupt_at=None, pause=True,
-            opcodes=True, dedupe=None):
+            opcodes=True, dedupe=None, degraded=False):
         core.alive()
         uj_graph = build_nx(self.uj, nodes, edges)
         exc_objs = {}
@@ -329,6 +329,12 @@ class EngineCampaign:
         case = {"nodes": nodes, "edges": edges, "workers": workers, "max_errors": max_errors, "scheduler": scheduler,
                 "failing": sorted(failing), "exc_kind": exc_kind, "schedule": tag, "decisions": run.sched.decisions[:4000],
                 "interrupt_at": interrupt_at, "outcome": outcome[0]}
+        if degraded:
+            case["mode"] = "controlled schedule at bytecode granularity, model-free monitors only (the engine lacks the statements Engine.v's events are read from)"
+            if run.untracked:
+                # the engine started threads the scheduler does not control: what was observed is not a faithful execution
+                self.ctx.count("degraded_run_discarded", "untracked threads")
+                return run, outcome
         for prop, key, what in monitors(self.ctx, None, run, nodes, edges, workers, max_errors, failing, exc_objs, outcome, case):
             self.found.append((prop, key, what, dict(case, events=[repr(e) for e in run.events[:400]])))
         if dedupe is not None:
@@ -337,7 +343,7 @@ class EngineCampaign:
             if key in dedupe:
                 return run, outcome
             dedupe.add(key)
-        if outcome[0] != "deadlock":
+        if outcome[0] != "deadlock" and not degraded:
             try:
                 ch, exp = to_choices(run, nodes, edges, self.rfg.DONE)
             except Exception as e:      # e.g. calls executed on the coordinating thread: no model-level trace exists
@@ -392,7 +398,10 @@ def campaign(ctx, props):
     import translate_engine
     translate_engine.check(ctx)      # the engine's atomic blocks compiled from the source and linked to Engine.v's init / next by theorems
     if not camp.usable:
-        ctx.notes["engine_campaign"] = "skipped: run_function_on_graph.py lacks statements the tracer keys on (reported as a broken sentinel)"
+        ctx.notes["engine_campaign"] = ("degraded: run_function_on_graph.py lacks statements the tracer keys on (reported as a broken sentinel); controlled "
+                                        "schedules are still explored and judged by the model-free monitors only")
+        degraded_campaign(ctx, camp)
+        file_findings(ctx, camp, props)
         return camp
     rng = ctx.rng
     targeted(ctx, camp)
@@ -436,6 +445,55 @@ def campaign(ctx, props):
     camp.eval_model()
     file_findings(ctx, camp, props)
     return camp
+
+
+def degraded_campaign(ctx, camp):
+    """The engine was restructured: Engine.v's events cannot be read off it any more (a broken tie, already reported).  The baton
+    scheduler still controls every thread the engine starts through its `threading` / `create_queue` names, so schedules are still
+    explored at bytecode granularity; each run is executed under a time limit (an engine that blocks in primitives the scheduler
+    does not replace simply times out and is skipped) and judged by the model-free monitors only: start before dependencies,
+    downstream of a failure, executed twice / not at all, deadlock, leaked thread, wrong error."""
+    rng = ctx.rng
+    shapes = [
+        ("fanin2", [0, 1, 2], [(0, 2, "pos"), (1, 2, "pos")]),
+        ("fanin3", [0, 1, 2, 3], [(0, 3, "pos"), (1, 3, "pos"), (2, 3, "dep")]),
+        ("fanin2-parallel", [0, 1, 2], [(0, 2, "pos"), (1, 2, "pos"), (1, 2, "dep")]),
+        ("diamond", [0, 1, 2, 3], [(0, 1, "pos"), (0, 2, "pos"), (1, 3, "pos"), (2, 3, "kw")]),
+        ("double-join", [0, 1, 2, 3, 4], [(0, 3, "pos"), (1, 3, "pos"), (3, 4, "pos"), (2, 4, "pos")]),
+        ("chain", [0, 1, 2], [(0, 1, "pos"), (1, 2, "pos")]),
+        ("independent3", [0, 1, 2], []),
+    ]
+    timeouts = 0
+    jobs = []
+    for name, nodes, edges in shapes:
+        for workers in (2, 3, 1):
+            for exc_kind, failing, max_errors in (("Exception", [], 0), ("Exception", [nodes[0]], 0), ("Exception", [nodes[1]], 1), ("BaseException", [nodes[0]], None),
+                                                  ("SystemExit", [nodes[1]], 0)):
+                for si in range(ctx.n(4, 12)):
+                    jobs.append((name, nodes, edges, workers, max_errors, failing, exc_kind, si))
+    for gi in range(ctx.n(20, 150)):
+        fam, nodes, edges = gen_graph(rng, maxn=7)
+        if len(nodes) >= 2:
+            jobs.append((fam, nodes, edges, rng.choice([1, 2, 3]), rng.choice([0, 1, None]), rng.sample(nodes, rng.choice([0, 0, 1])), "Exception", gi))
+    for name, nodes, edges, workers, max_errors, failing, exc_kind, si in jobs:
+        if timeouts >= 3:
+            ctx.count("degraded_campaign", "stopped after 3 timed-out runs")
+            break
+        chooser = detsched.random_chooser(rng, rng.choice([0.1, 0.3, 0.6])) if si % 2 == 0 else detsched.pct_chooser(rng, depth=3, horizon=600)
+        try:
+            run, outcome = core.call_watched(lambda: camp.one(nodes, edges, workers, max_errors, rng.choice(["cheap", "random", "default"]), failing, exc_kind,
+                                                              chooser, "degraded:" + name, degraded=True), timeout=20)
+        except core.Hang:
+            timeouts += 1
+            core.HANGS[0] -= 1          # not a finding: the scheduler cannot drive this engine
+            ctx.count("degraded_campaign", "run timed out (skipped)")
+            continue
+        except Exception as e:          # noqa - the instrumentation itself failed on the restructured engine
+            ctx.count("degraded_campaign", "instrumentation error %s" % type(e).__name__)
+            timeouts += 1
+            continue
+        ctx.case(("degraded", name, workers, max_errors, tuple(failing), tuple(run.sched.decisions[:200])))
+        ctx.count("degraded_outcome", outcome[0])
 
 
 def targeted(ctx, camp):
